@@ -999,6 +999,11 @@ class FnTranslator:
                 nm = self_path(n)
                 if nm not in out:
                     out.append(nm)
+            elif n.kind == "mcall" and method_key(n) is not None and method_key(n) in self.calls:
+                for a in self.calls[method_key(n)].get("self_args", []):
+                    if "self." + a not in out:
+                        out.append("self." + a)
+                self._reads(n.args, out)
             elif n.kind == "match":
                 self._reads(n.scrut, out)
                 for _, b, _ in n.arms:
@@ -1243,6 +1248,23 @@ class FnTranslator:
 
     def mcall(self, e, code, expected):
         nm = e.name
+        mkey = method_key(e)
+        if mkey is not None and mkey in self.calls:
+            # `self.kmp.delta(q, a)`: a translated method of a struct reachable from `self`; the fields of that struct
+            # it reads (`self_args` in the spec) are passed first (genpm)
+            f = self.calls[mkey]
+            if len(f["args"]) != len(e.args):
+                self.err("`%s` called with %d arguments, the spec says %d" % (mkey, len(e.args), len(f["args"])), e)
+            parts = [self.lookup("self." + a, e).lean for a in f.get("self_args", [])]
+            for a, at in zip(e.args, f["args"]):
+                want = self.ty_of_text(at)
+                s_, t_ = self.expr(a, code, want)
+                if t_ != want:
+                    self.err("argument of `%s` has type %r, the spec says %r" % (mkey, t_, want), a)
+                parts.append(atom(s_))
+            t = self.tmp()
+            code.bind(t, ("call", f["lean"] + "".join(" " + p for p in parts)))
+            return t, self.ty_of_text(f["ret"])
         if nm == "len" and not e.args:
             r, t = self.expr(e.recv, code)
             if not isinstance(t, TSeq):
@@ -2282,6 +2304,16 @@ def self_path(e):
     return None
 
 
+def method_key(e):
+    """key of a method call on `self` or on a struct reachable from it: `self.kmp.delta(..)` → "self.kmp.delta" (genpm)"""
+    r = e.recv
+    if r.kind == "var" and r.name == "self":
+        return "self." + e.name
+    if r.kind == "field" and self_path(r) is not None:
+        return self_path(r) + "." + e.name
+    return None
+
+
 def iter_state_target(it):
     """the iterator-state expression `x` of `x.by_ref()` / `&mut x` as a loop source, or None (genpm)"""
     while it.kind == "paren":
@@ -2509,6 +2541,27 @@ unit(name="SrcShiftAndNext", props="property C08", file="src/pattern_matching/sh
                      self_fields=[("shiftand.m", "usize"), ("shiftand.masks", "[u64; 256]"), ("shiftand.accept", "u64"),
                                   ("active", "u64"), ("text", "Enumerate<u8>")],
                      params=[], ret="Option<usize>", theorem="RbV.Thm.GenSrcShiftAndNext.next_eq_model")])
+
+
+unit(name="SrcKmpNext", props="property C08", file="src/pattern_matching/kmp.rs",
+     imports=["RbV.Gen.SrcKmpLps"], aliases={"Lps": "Vec<usize>", "TextSlice": "&[u8]"},
+     functions=[dict(name="KMP::new", lean="new", header="pub fn new(pattern: TextSlice<'a>) -> Self",
+                     params=[("pattern", "TextSlice")], ret="(Lps, usize, TextSlice)",
+                     struct_fields={"KMP": ["lps", "m", "pattern"]},
+                     calls={"lps": dict(lean="RbV.Gen.SrcKmpLps.lps", args=["&[u8]"], ret="Lps")},
+                     theorem="RbV.Thm.GenSrcKmpNext.new_eq_model"),
+                dict(name="KMP::find_all", lean="findAll",
+                     header="pub fn find_all<C, T>(&self, text: T) -> Matches<C, T::IntoIter> where C: Borrow<u8>, "
+                            "T: IntoIterator<Item = C>,",
+                     params=[("text", "&[u8]")], ret="(usize, Enumerate<u8>)",
+                     struct_fields={"Matches": [("q", "usize"), ("text", "Enumerate<u8>")]},
+                     theorem="RbV.Thm.GenSrcKmpNext.findAll_init"),
+                dict(name="Matches::next", lean="next", header="fn next(&mut self) -> Option<usize>",
+                     self_fields=[("kmp.m", "usize"), ("kmp.lps", "Lps"), ("kmp.pattern", "TextSlice"),
+                                  ("q", "usize"), ("text", "Enumerate<u8>")],
+                     calls={"self.kmp.delta": dict(lean="RbV.Gen.SrcKmpLps.delta", self_args=["kmp.m", "kmp.lps", "kmp.pattern"],
+                                                   args=["usize", "u8"], ret="usize")},
+                     params=[], ret="Option<usize>", theorem="RbV.Thm.GenSrcKmpNext.next_eq_model")])
 
 
 # ================================================================================================== self-test
